@@ -1,0 +1,44 @@
+// Copyright JAMF Software, LLC
+
+//go:build verif
+
+package table
+
+import (
+	"time"
+
+	"github.com/lni/dragonboat/v4"
+)
+
+// Hooks for the verification harness, compiled only with the "verif" build tag.
+
+// VerifReconcile runs one reconcile round (start catalogued shards, stop uncatalogued ones).
+func (m *Manager) VerifReconcile() error { return m.reconcile() }
+
+// VerifCleanup runs one cleanup round.
+func (m *Manager) VerifCleanup() error { return m.cleanup() }
+
+// VerifDiffTables exposes diffTables.
+func VerifDiffTables(tables map[string]Table, raftInfo []dragonboat.ShardInfo) (toStart map[uint64]Table, toStop []uint64) {
+	return diffTables(tables, raftInfo)
+}
+
+// VerifCreateRecord performs the catalogue step of CreateTable without starting a shard.
+func (m *Manager) VerifCreateRecord(name string) (Table, error) {
+	m.mtx.Lock()
+	defer m.mtx.Unlock()
+	return m.createTable(name)
+}
+
+// VerifSetIntervals overrides the manager timers (zero values are left untouched).
+func (m *Manager) VerifSetIntervals(reconcile, cleanup, cleanupGrace time.Duration) {
+	if reconcile > 0 {
+		m.reconcileInterval = reconcile
+	}
+	if cleanup > 0 {
+		m.cleanupInterval = cleanup
+	}
+	if cleanupGrace > 0 {
+		m.cleanupGracePeriod = cleanupGrace
+	}
+}
